@@ -32,8 +32,8 @@ from .c03 import dec_line, dec_str
 
 # datatype -> (alphabet, quick bound, thorough bound)
 PLAN = {
-    "basic-key": ("aB1-._é ", 5, 6),
-    "identifier": ("aB1-._é ", 5, 6),
+    "basic-key": ("aB1-._é \u212a", 5, 6),          # U+212A KELVIN SIGN lower-cases to ASCII 'k'
+    "identifier": ("aB1-._é \u212a", 5, 6),
     "dotted-name": ("aB1-._é", 5, 6),
     "dotted-suffix": ("aB1-._é", 5, 6),
     "boolean": ("onfONyes ", 4, 5),
@@ -54,6 +54,12 @@ PLAN = {
 }
 REGEX_KINDS = {"basic-key": "basic-key", "identifier": "identifier", "dotted-name": "dotted-name",
                "dotted-suffix": "dotted-suffix"}
+
+
+def ext_lower(alpha):
+    """str.lower() of the non-ASCII characters of an alphabet (environment table of ZChars)."""
+    from ..chars import ext_tables
+    return ext_tables(alpha)[0]
 
 
 def strings(alpha, n):
@@ -315,7 +321,8 @@ def run(chk):
         gen = ("Alphabet == " + tlc.tla_value({enc_char(c) for c in alpha}) + "\n"
                "MCValidV6 == " + tlc.tla_value(v6 or {"~none~"}) + "\n"
                "MCFloatOK == " + tlc.tla_value(fl or {"~none~"}) + "\n"
-               "MCExtSpace == {}\nMCExtLower == [c \\in {} |-> c]\n")
+               "MCExtSpace == {}\nMCExtLower == " + (tlc.tla_value(ext_lower(alpha)) if ext_lower(alpha)
+                                                      else "[c \\in {} |-> c]") + "\n")
         mod = template.replace("@GENERATED@", gen)
         cfg = flow.cfg_text(constants={"DT": tlc.tla_str(dt), "MaxLen": n},
                             overrides={"ValidV6": "MCValidV6", "FloatOK": "MCFloatOK"},
